@@ -52,7 +52,16 @@ Dense5 == <<0, 1, 4, 9, 16, 25, 36, 49>>        \* a pure quadratic
 Dense(N) == {[i \in 1..N |-> d[i]] : d \in {Dense1, Dense2, Dense3, Dense4, Dense5}}
 Impulses(N) == {Impulse(N, p, a) : p \in 1..N, a \in {1, -2}}
 Pairs(N)    == {Pair(N, p, q, 1, b) : p \in 1..N, q \in 1..N, b \in {1, -1}} \ {[i \in 1..N |-> 0]}
-AutoRecords(N) == IF DataSet = "full" THEN Impulses(N) \cup {r \in Pairs(N) : TRUE} \cup Dense(N)
+(* records carrying polynomial trends of degree 0..3 (C08) *)
+TrendOf(N, d, a) == [i \in 1..N |-> a * (IF d = 0 THEN 1 ELSE IF d = 1 THEN i - 1 ELSE IF d = 2 THEN (i - 1) * (i - 1) ELSE (i - 1) * (i - 1) * (i - 1))]
+PlusTrend(r, N, d, a) == LET tr == TrendOf(N, d, a) IN [i \in 1..N |-> r[i] + tr[i]]
+TrendBases(N) == {[i \in 1..N |-> Dense1[i]], Impulse(N, 2, 1), [i \in 1..N |-> 0]}
+TrendAuto(N) == {PlusTrend(b, N, d, 2) : b \in TrendBases(N), d \in 0..3}
+TrendCross(N) ==
+    LET b1 == [i \in 1..N |-> Dense1[i]]  b2 == [i \in 1..N |-> Dense2[i]] IN
+    {<<PlusTrend(b1, N, d, 2), b2>> : d \in 0..3} \cup {<<b1, PlusTrend(b2, N, d, -1)>> : d \in 0..3}
+    \cup {<<PlusTrend(b1, N, d, 2), PlusTrend(b2, N, e, -1)>> : d \in 0..2, e \in 1..3}
+AutoRecords(N) == IF DataSet = "trend" THEN TrendAuto(N) ELSE IF DataSet = "full" THEN Impulses(N) \cup {r \in Pairs(N) : TRUE} \cup Dense(N)
                   ELSE {Impulse(N, p, 1) : p \in 1..N} \cup Dense(N)
                        \cup {Pair(N, p, p + 1, 1, -1) : p \in 1..(N - 1)}
 (* cross mode: pairs (x, y) *)
@@ -61,7 +70,7 @@ CrossPairs(N) ==
         dd  == {<<a, b>> \in Dense(N) \X Dense(N) : TRUE}
         mix == {<<Impulse(N, p, 1), d>> : p \in 1..N, d \in {[i \in 1..N |-> Dense1[i]]}}
                \cup {<<d, Impulse(N, p, 1)>> : p \in 1..N, d \in {[i \in 1..N |-> Dense2[i]]}}
-    IN IF DataSet = "full" THEN imp \cup dd \cup mix
+    IN IF DataSet = "trend" THEN TrendCross(N) ELSE IF DataSet = "full" THEN imp \cup dd \cup mix
        ELSE {<<Impulse(N, p, 1), Impulse(N, q, 1)>> : p \in 1..N, q \in 1..N}
             \cup {<<[i \in 1..N |-> Dense1[i]], [i \in 1..N |-> Dense2[i]]>>,
                   <<[i \in 1..N |-> Dense3[i]], [i \in 1..N |-> Dense1[i]]>>,
